@@ -4370,7 +4370,7 @@ class Frame(ContainerOperand):
             return Frame(frame_sorted._blocks._extract(column_key=key),
                     columns=index,
                     index=self._index,
-                    own_columns=True,
+                    own_columns=self.STATIC, # own if static: a slice of grow-only columns is grow-only
                     own_index=True,
                     own_data=True,
                     )
